@@ -1,6 +1,7 @@
 import SwcVerif.Props.C05Gen
 import SwcVerif.Refine.Redirect
 import SwcVerif.Gen.AlgoSortWrap
+import SwcVerif.Refine.Ctor
 /-! # C05: the wrapper the user calls, `tree_utils.sort_tree`, tied to the source by the translator (T41)
 
 `Gen.Algo.sort_tree` is regenerated from `swcgeom/core/tree_utils.py::sort_tree` (`return _sort_tree(tree.copy())`) on every run
@@ -30,5 +31,55 @@ theorem generated_sort_tree_ok (r : Rose) (ids pids types : List Int) (h : IsTre
 /-- non-vacuity (kernel-evaluated): a shuffled table with a gap in the ids -/
 example : sort_tree 6 [7, 3, 9, 4] [3, -1, 3, 9] [1, 2, 3, 4] = some ([0, 1, 2, 3], [-1, 0, 1, 0], [2, 3, 4, 1], ()) := by
   decide +kernel
+
+/-! ## the table forms the user calls: `sort_nodes_` (in place; also the step of `read_swc(sort_nodes=True)`) and `sort_nodes` (copying)
+
+`Gen.Algo.sort_nodes_` (Gen/AlgoRepair.lean) and `Gen.Algo.sort_nodes` (Gen/AlgoCtor.lean) are regenerated from
+`swcgeom/core/swc_utils/normalizer.py`; a frame is its columns `ids`, `pids`, `types`, `rs` (two topology columns, two further per-node columns). -/
+
+/-- **`sort_nodes_(df)` as translated**, whenever the model's renumbering succeeds on a table with distinct ids: every column is gathered by the row
+permutation, then the two topology columns are replaced by `arange(n)` / the new parents -/
+theorem sortNodes_refines (ids pids types rs : List Int) (hnd : ids.Nodup) (hlp : pids.length = ids.length) (hlt : types.length = ids.length)
+    (hlr : rs.length = ids.length) (r : Result) (h : sortNodesImpl ids pids = .ok r) (F : Nat) :
+    sort_nodes_ (ids.length + 1 + F) ids pids types rs =
+      some (Py.range (ids.length : Int), r.newPids, permute types r.indices, permute rs r.indices, ()) := by
+  have hs := RefineSort.sort_refines ids pids hnd r h F
+  have hlt' := RefineRedirect.indices_lt ids pids r h
+  have t1 := RefineRedirect.take_of_lt ids r.indices hlt'
+  have t2 := RefineRedirect.take_of_lt pids r.indices (by rw [hlp]; exact hlt')
+  have t3 := RefineRedirect.take_of_lt types r.indices (by rw [hlt]; exact hlt')
+  have t4 := RefineRedirect.take_of_lt rs r.indices (by rw [hlr]; exact hlt')
+  simp only [sort_nodes_, sort_nodes_.body, Py.seq, Py.bind, hs, t1, t2, t3, t4, Py.finish]
+  simp
+
+/-- **`sort_nodes_(df)` on every tree table**: raises nothing; ids `0..n-1`, the pre-order parents, both per-node columns carried along by the same row
+permutation (`C05.generated_sort_ok` for the in-place table form). Fuel `n + 1` suffices. -/
+theorem generated_sort_nodes_inplace_ok (r : Rose) (ids pids types rs : List Int) (h : IsTreeTable r ids pids) (hlt : types.length = ids.length)
+    (hlr : rs.length = ids.length) (F : Nat) :
+    sort_nodes_ (ids.length + 1 + F) ids pids types rs =
+      some (Py.range (ids.length : Int), (pre r (-1) 0).map (·.2),
+            permute types ((pre r (-1) 0).map (fun op => indexOf ids op.1)),
+            permute rs ((pre r (-1) 0).map (fun op => indexOf ids op.1)), ()) :=
+  sortNodes_refines ids pids types rs (h.2.1.nodup_iff.1 h.1.2) h.2.2.1.symm hlt hlr _ (sort_ok r ids pids h) F
+
+/-- the sorted table of a frame: ids `0..n-1`, the pre-order parents, the per-node columns permuted by the pre-order rows -/
+def sortedFrame (r : Rose) (fr : Py.Frame) : Py.Frame :=
+  ⟨Py.range (fr.ids.length : Int), (pre r (-1) 0).map (·.2), permute fr.types ((pre r (-1) 0).map (fun op => indexOf fr.ids op.1)),
+   permute fr.rs ((pre r (-1) 0).map (fun op => indexOf fr.ids op.1))⟩
+
+/-- **`sort_nodes(df)` (the copying form) on every tree table**: it allocates ONE new frame, which holds the sorted table, and returns its reference;
+FRAME: every frame that existed before - the argument included - is unchanged (`heap` is a prefix of the new heap). -/
+theorem generated_sort_nodes_ok (r : Rose) (heap : Py.Frames) (df : Int) (fr : Py.Frame) (hget : Py.Frames.get? heap df = some fr)
+    (h : IsTreeTable r fr.ids fr.pids) (hlt : fr.types.length = fr.ids.length) (hlr : fr.rs.length = fr.ids.length) (F : Nat) :
+    sort_nodes (fr.ids.length + 1 + F) heap df =
+      some (heap ++ [sortedFrame r fr], (heap.length : Int)) ∧
+    Py.Frames.get? (heap ++ [sortedFrame r fr]) df = some fr := by
+  refine ⟨?_, RefineCtor.get?_old heap _ df fr hget⟩
+  rw [RefineCtor.sort_nodes_eq, hget]
+  simp [generated_sort_nodes_inplace_ok r fr.ids fr.pids fr.types fr.rs h hlt hlr F, sortedFrame]
+
+/-- non-vacuity (kernel-evaluated) -/
+example : sort_nodes_ 6 [7, 3, 9, 4] [3, -1, 3, 9] [1, 2, 3, 4] [10, 20, 30, 40] =
+    some ([0, 1, 2, 3], [-1, 0, 1, 0], [2, 3, 4, 1], [20, 30, 40, 10], ()) := by decide +kernel
 
 end C05
